@@ -9,6 +9,7 @@ from ..muxsys import mux_spec, INPUT_OPTS, live_in_phase
 from .. import phys
 
 PROP = "C05"
+WANT = ("C05", "C01", "C04")   # row oracles applied by this module (C01 / C02 re-use the edit histories with their own)
 
 
 def spec_without(spec, name):
@@ -31,6 +32,8 @@ def check_case(case):
     res = Res()
     inputs = [tuple(x) for x in case["inputs"]]
     spec = mux_spec(inputs, case["pal"], case["rs_list"], case["rails"], case["by_rail"], pol=case.get("pol", 1), mux_pc=case.get("mux_pc"), order=case.get("order"), ig_table=case.get("ig_table", False), below=case.get("below", "std"))
+    if case.get("hole"):     # a component is added and deleted right before the mux is added: the mux node re-uses a freed index
+        spec["hole_before"] = "M"
     if case.get("bounce"):   # the system phases are re-defined with other names and then as before: "inactive" inputs stay inactive
         spec["bounce"] = case["bounce"]
     if case.get("reload"):
@@ -51,7 +54,7 @@ def check_case(case):
         obs = observe(df)
         d = resolve(spec)
         for ph in spec["phases"]:
-            phys.check_phase(res, spec, obs, ph, 25.0, ("C05", "C01", "C04"), d)
+            phys.check_phase(res, spec, obs, ph, 25.0, WANT, d)
         res.viol = [(("C05.after-reload",) + sig, det) for sig, det in res.viol]
         res.nontrivial = 1
         res.classes.add("reloaded")
@@ -111,12 +114,12 @@ def check_case(case):
         obs = observe(df)
         d = resolve(spec)
         for ph in spec["phases"]:
-            phys.check_phase(res, spec, obs, ph, 25.0, ("C05", "C01", "C04"), d)
+            phys.check_phase(res, spec, obs, ph, 25.0, WANT, d)
         res.viol = [(("C05.after-delete",) + sig, det) for sig, det in res.viol]
         res.nontrivial = 1
         res.classes.add("edited")
         return res
-    s, obs = phys.solve_and_check(res, spec, ("C05", "C01", "C04"))
+    s, obs = phys.solve_and_check(res, spec, WANT)
     if obs is None:
         return res
     d = resolve(spec)
@@ -156,6 +159,8 @@ def gen_cases(tier):
             if k <= 2 and any(st.startswith("inact") for _, st in inputs):
                 for b in ("rename", "clear"):
                     yield dict(inputs=[list(x) for x in inputs], pal=pal, rs_list=False, rails=False, by_rail=False, pol=1, bounce=b)
+            if k <= 3:
+                yield dict(inputs=[list(x) for x in inputs], pal=pal, rs_list=(k == 2), rails=False, by_rail=False, pol=1, hole=True)
             if k <= 3:  # per-input resistances written with a negative sign
                 yield dict(inputs=[list(x) for x in inputs], pal=pal, rs_list="neg", rails=False, by_rail=False, pol=1)
             if k <= 3:  # the mux with a 2-D ground-current table (looked up at the selected input's voltage)
